@@ -196,3 +196,94 @@ func FaultFree(cfg Config, nviews int) (string, *World) {
 	}
 	return "", w
 }
+
+// IsolationResult is the outcome of one isolation-and-heal run.
+type IsolationResult struct {
+	HealView   hotstuff.View         // first view after the scenario
+	CommitView map[hotstuff.ID]int   // highest view in the system when the replica first committed a block it had not committed at the heal point (-1: never)
+	MaxView    hotstuff.View         // highest view reached
+	Events     int
+	Trace      []string
+	Broken     string
+}
+
+// IsolationRun runs the lock-step schedule (FIFO delivery, timers at quiescence) of a scenario in
+// which replica `isolated` is cut off from the others for the first k views, whose leaders follow
+// `pattern` cyclically; from view k+1 on all replicas are connected and views are led by the members
+// of `rotation` in turn.
+// It reports, per replica, how many views after the heal it took to commit a new block.
+func IsolationRun(cfg Config, isolated hotstuff.ID, pattern, rotation []hotstuff.ID, k, suffixViews int) IsolationResult {
+	all := uint32(1)<<uint(cfg.N) - 1
+	mask := all &^ (1 << uint(isolated-1))
+	if isolated == 1 {
+		mask = 1
+	}
+	cfg.Scenario = nil
+	for v := 0; v < k; v++ {
+		cfg.Scenario = append(cfg.Scenario, ScView{Leader: pattern[v%len(pattern)], Mask: mask})
+	}
+	cfg.Horizon = hotstuff.View(k + suffixViews + 8)
+	cfg.Timeouts = 1 << 20
+	cfg.Commands = k + suffixViews + 16
+	cfg.Leader = func(v hotstuff.View) hotstuff.ID {
+		if v >= 1 && int(v) <= k {
+			return pattern[(int(v)-1)%len(pattern)]
+		}
+		return rotation[int(v)%len(rotation)]
+	}
+	w := New(cfg)
+	res := IsolationResult{HealView: hotstuff.View(k + 1), CommitView: map[hotstuff.ID]int{}}
+	baseline := map[int]int{}
+	healed := false
+	for step := 0; step < 40000; step++ {
+		var maxV hotstuff.View
+		for _, nd := range w.Nodes {
+			if nd.VS.View() > maxV {
+				maxV = nd.VS.View()
+			}
+		}
+		res.MaxView = maxV
+		if !healed && maxV > hotstuff.View(k) {
+			healed = true
+			for _, nd := range w.Nodes {
+				baseline[nd.Slot] = len(nd.Commits)
+				res.CommitView[nd.ID] = -1
+			}
+		}
+		if healed {
+			done := true
+			for _, nd := range w.Nodes {
+				if res.CommitView[nd.ID] < 0 {
+					if len(nd.Commits) > baseline[nd.Slot] {
+						res.CommitView[nd.ID] = int(maxV)
+					} else {
+						done = false
+					}
+				}
+			}
+			if done || int(maxV) > k+suffixViews {
+				break
+			}
+		}
+		d := w.Default()
+		if d == "" {
+			break
+		}
+		if !w.Apply(d) {
+			res.Broken = "default event not applicable: " + d
+			break
+		}
+		if w.Starved {
+			res.Broken = "command stock exhausted"
+			break
+		}
+		res.Events++
+	}
+	if !healed {
+		for _, nd := range w.Nodes {
+			res.CommitView[nd.ID] = -1
+		}
+	}
+	res.Trace = w.Trace
+	return res
+}
